@@ -286,7 +286,7 @@ def run_link_property(ctx, pid, gen_cases, oracle, classify, rule, nontrivial, a
         if r and r.get("hang"):
             wedged += 1
             if hang_is_failure:
-                failing.append((case_cost(c), i, "wedged: an API operation or the teardown never completed (no progress for 25 s of real time)"))
+                failing.append((case_cost(c), i, "wedged: an API operation or the teardown never completed (no progress for 8 s of real time)"))
             continue
         w = oracle(c, r)
         if w:
